@@ -106,6 +106,10 @@ func c12Body(c *c12Case, results *[2]string) func() {
 	case "parsefile2":
 		return par(func() string { return parseObsStr(impl.ParseFile(impl.NewScriptFile(c.A, c.Script))) },
 			func() string { return parseObsStr(impl.ParseFile(impl.NewScriptFile(c.B, c.Script))) })
+	case "introspect2":
+		// two independent calls with disassembly, trace and statistics on, each into writers of its own
+		return par(func() string { return impl.Interpret(c.A, bcl.OptDisasm(true), bcl.OptTrace(true), bcl.OptStats(true)).Summary() },
+			func() string { return impl.Interpret(c.B, bcl.OptDisasm(true), bcl.OptTrace(true), bcl.OptStats(true)).Summary() })
 	case "interpret2":
 		return par(func() string { return impl.Interpret(c.A).Summary() }, func() string { return impl.Interpret(c.B).Summary() })
 	case "opts2":
@@ -440,7 +444,7 @@ func init() {
 		ID:    "C12",
 		Level: "model_checking",
 		Rule: "controlled-scheduler exploration with a happens-before race detector: the package is rewritten so that every access to a package-level variable, to an addressable field of a struct type of package bcl and to a captured local is logged; vector clocks advance only on the program's own synchronisation (channel send->receive, close->receive, go->start, unlock->lock, WaitGroup), not on scheduler hand-offs. " +
-			"Harness bodies: (a) the ParseFile pipeline on multi-chunk inputs whose first chunk has syntax errors while later chunks hold newlines (parser formats diagnostics while the lexer appends line ends), valid multi-chunk input, early lexical failure; (b) two concurrent callers: Parse||Parse, ParseFile||ParseFile, Parse+ParseFile+LoadProg by two callers that pass one shared options slice with spare capacity, Interpret||Interpret on different inputs, Unmarshal||Unmarshal, Execute||Execute (also with per-call loggers/outputs/options), Execute||Dump and Dump||Dump on one shared Prog with a locked output writer, LoadProg+Execute pairs, Bind||Bind. " +
+			"Harness bodies: (a) the ParseFile pipeline on multi-chunk inputs whose first chunk has syntax errors while later chunks hold newlines (parser formats diagnostics while the lexer appends line ends), valid multi-chunk input, early lexical failure; (b) two concurrent callers: Parse||Parse, ParseFile||ParseFile, Parse+ParseFile+LoadProg by two callers that pass one shared options slice with spare capacity, Interpret||Interpret on different inputs (also with disassembly, trace and statistics on), Unmarshal||Unmarshal, Execute||Execute (also with per-call loggers/outputs/options), Execute||Dump and Dump||Dump on one shared Prog with a locked output writer, LoadProg+Execute pairs, Bind||Bind. " +
 			"ALL schedules with <=B preemptions (quick 1, thorough 2; Execute pairs B+1) are executed for the pipeline and the Execute/Dump/Bind pairs; the Parse/ParseFile/Interpret pairs (7-9 goroutines) use delay bounding: a deterministic scheduler plus every placement of <=B+1 deviations; on each: no unordered conflicting access pair, no deadlock/panic, and each call's result equals its sequential result. Every scenario is explored once more (<=1 preemption) in a process of its own that has done nothing before, so that state built on first use is built inside a scheduled execution.",
 		Subs:           []*fw.Sub{subC12, subC12Cold},
 		BudgetQuick:    100,
@@ -482,6 +486,7 @@ func init() {
 				c.Do(subC12, &c12Case{Scenario: "opts2", A: p[0], B: p[1], Bound: bound, Delay: true})
 				c.Do(subC12, &c12Case{Scenario: "parse2", A: p[0], B: p[1], Bound: bound + 1, Delay: true})
 				c.Do(subC12, &c12Case{Scenario: "interpret2", A: p[0], B: p[1], Bound: bound + 1, Delay: true})
+				c.Do(subC12, &c12Case{Scenario: "introspect2", A: p[0], B: p[1], Bound: bound, Delay: true})
 				c.Do(subC12, &c12Case{Scenario: "parsefile2", A: p[0], B: p[1], Script: impl.Chunks(6), Bound: bound + 1, Delay: true})
 			}
 			for _, src := range []string{"var a = 1\nprint a + 1\ndef b \"n\" { x = a; print x }\nbind b -> struct", "print 1\nprint 1/0", "def a {x=1} def a {x=2}\nbind a:all -> slice\nbind a:last -> struct"} {
@@ -533,6 +538,7 @@ func RacePass() int {
 		{Scenario: "opts2", A: big, B: strings.Repeat("def b { x = 1 }\n", 200)},
 		{Scenario: "parsefile2", A: big, B: big, Script: one},
 		{Scenario: "interpret2", A: strings.Repeat("print 1+2\n", 300), B: strings.Repeat("def b { x = 1 }\n", 200)},
+		{Scenario: "introspect2", A: strings.Repeat("print 1+2\n", 300), B: strings.Repeat("def b { x = 1 }\n", 200)},
 		{Scenario: "exec2", A: strings.Repeat("print 1\n", 200) + "def b \"n\" { x = 1 }\nbind b -> struct"},
 		{Scenario: "execdump", A: strings.Repeat("print 1\n", 200) + "def b \"n\" { x = 1 }\nbind b -> struct"},
 		{Scenario: "exec2opts", A: strings.Repeat("print 1\n", 200) + "def b \"n\" { x = 1 }\nbind b -> struct\nbind b -> struct"},
